@@ -1000,6 +1000,12 @@ private:"""),
          old="x.array()    = x0.array() + radius * z * x.array() / x.lpNorm<2>();", new="x.array()    = x0.array() + radius * z * x.array() / x.lpNorm<Eigen::Infinity>();"),
     dict(property="C12", name="ball-scale-above-one", rule="R-C12-7", file="src/core/sampling.cpp",
          old="const auto z = std::pow(scale_dist(rng), 1.0 / static_cast<scalar_t>(n));", new="const auto z = 1.0 + std::pow(scale_dist(rng), 1.0 / static_cast<scalar_t>(n));"),
+    dict(property="C09", name="cached-flatten-returns-first-rows", rule="R-C09-6", file="src/dataset/iterator.cpp",
+         old="        return m_flatten.slice(range);", new="        return m_flatten.slice(make_range(0, range.size()));"),
+    dict(property="C09", name="targets-cache-filled-unscaled", rule="R-C09-6", file="src/dataset/iterator.cpp",
+         old="                    m_targets.slice(range) = targets(dataset().targets(samples, m_targets_buffers[tnum]));", new="                    m_targets.slice(range) = dataset().targets(samples, m_targets_buffers[tnum]);"),
+    dict(property="C09", name="flatten-cache-guard-by-columns", rule="R-C09-6", file="src/dataset/iterator.cpp",
+         old="    if (m_flatten.size<0>() == samples.size())", new="    if (m_flatten.size<1>() == dataset.columns())"),
     # ---- C16
     dict(property="C16", name="index0-stride-off-by-one-dimension", rule="R-C16-1", file="include/nano/tensor/dims.h", tu="src/core/sampling.cpp",
          old="    return index * product<idim + 1>(dims) + get_index0<idim + 1>(dims, indices...);", new="    return index * product<idim>(dims) + get_index0<idim + 1>(dims, indices...);"),
@@ -1060,6 +1066,11 @@ private:
          old="        stack(vector, row + block.size(), blocks...);", new="        stack(vector, row + 1, blocks...);"),
     dict(property="C16", name="stack-matrix-wraps-late", rule="R-C16-5", file="include/nano/tensor/stack.h", tu="src/program/util.cpp",
          old="            if (col + block_cols >= matrix.cols())", new="            if (col + block_cols > matrix.cols())"),
+    dict(property="C20", name="percentile-position-divides-first", rule="R-C20-3", file="include/nano/core/stats.h", tu="src/core/histogram.cpp",
+         old="    const double position = percentage * static_cast<double>(size - 1) / 100.0;", new="    const double ratio    = percentage / 100.0;\n    const double position = ratio * static_cast<double>(size - 1);"),
+    # NB: this edit used to be listed as benign (it is algebraically the same); seed C20-2 showed it is not: p/100 is rounded first
+    dict(property="C20", name="percentile-position-reordered", rule="R-C20-3", file="include/nano/core/stats.h", tu="src/core/histogram.cpp",
+         old="const double position = percentage * static_cast<double>(size - 1) / 100.0;", new="const double position = static_cast<double>(size - 1) * (percentage / 100.0);"),
     # ---- C09
     dict(property="C09", name="linear-accumulator-sum-drops-gW1", rule="R-C09-2", file="src/linear/accumulator.cpp",
          old="    m_gW1 += other.m_gW1;\n", new=""),
@@ -1159,8 +1170,6 @@ BENIGN = [
          old="critical(feature < 0 || feature >= features(),", new="critical(0 > feature || features() <= feature,"),
     dict(property="C20", name="bin-query-via-double-local", file="include/nano/core/histogram.h",
          old="const auto svalue = static_cast<scalar_t>(value); // NOLINT(cert-str34-c)", new="const double svalue = value;"),
-    dict(property="C20", name="percentile-position-reordered", file="include/nano/core/stats.h",
-         old="const double position = percentage * static_cast<double>(size - 1) / 100.0;", new="const double position = static_cast<double>(size - 1) * (percentage / 100.0);"),
     dict(property="C14", name="scale-mean-reassociated", file="src/dataset/stats.cpp",
          old="            array      = (array - m_mean.array()) * m_div_range.array();", new="            array      = array * m_div_range.array() - m_mean.array() * m_div_range.array();"),
     dict(property="C14", name="variance-abs-instead-of-max", file="src/dataset/stats.cpp",
@@ -1310,4 +1319,6 @@ BENIGN = [
             Hm.noalias() = delta * (Hm - sigma * (Hm * gv * gv.transpose() * Hm) / gHg);"""),
     dict(property="C11", name="gboost-final-stats-named-selection", file="src/gboost/model.cpp",
          old="        fit_result.store(::selected(values, samples));", new="        auto fitted_values = ::selected(values, samples);\n        fit_result.store(std::move(fitted_values));"),
+    dict(property="C20", name="percentile-position-product-commuted", file="include/nano/core/stats.h", tu="src/core/histogram.cpp",
+         old="    const double position = percentage * static_cast<double>(size - 1) / 100.0;", new="    const double scaled   = static_cast<double>(size - 1) * percentage;\n    const double position = scaled / 100.0;"),
 ]
